@@ -318,6 +318,8 @@ _c08_quick = [
     run("hm", "map_b2_hp", c=1, opt={"ops": 0x83, "prefill": 3}), run("hm", "map_b1_const_hp", c=1, opt={"ops": 0x103, "prefill": 1}),
     run("hm", "map_b1_ebr", c=2, opt={"ops": 0x3, "keys": 1}), run("hm", "set_hp", c=2, opt={"ops": 0x7, "keys": 1, "prefill": 1}), run("hm", "map_b1_lfrc", c=2, opt={"ops": 0x23, "keys": 1}),
     run("hm", "map_b1_hp", c=1, heap="reuse", opt={"ops": 0x23, "prefill": 2}),
+    # immediate address reuse with era-based protection (finding F-C01-2 surfaced through find() -> acquire_if_equal)
+    run("hm", "set_he", c=1, heap="reuse", opt={"ops": 0x7}), run("hm", "map_b1_he", c=1, heap="reuse", opt={"ops": 0x23, "prefill": 2}),
     run("hm", "map_b1_memo_scr_hp", c=0, opt={"T": 1, "m": 4, "ops": 0x1ff}), run("hm", "set_hp", c=0, opt={"T": 1, "m": 4, "ops": 0x9f}),
     run("hm", "map_b2_memo_scr_hp", c=0, opt={"T": 1, "m": 4, "ops": 0x1ff, "keys": 3, "prefill": 5}),
 ]
@@ -327,7 +329,8 @@ _c08_thorough = [run("hm", "set_" + r, c=1, opt={"ops": 0x97}, weight=3 if r == 
     [run("hm", t, c=2, opt={"ops": 0x13, "keys": 2, "prefill": 2}, weight=4) for t in ["set_hp", "set_lfrc", "set_ebr"]] + \
     [run("hm", t, c=3, opt={"ops": 0x7, "keys": 1}, weight=3) for t in ["set_hp", "map_b1_lfrc"]] + \
     [run("hm", t, c=2, opt={"ops": 0x3, "T": 3, "m": 1, "keys": 1}, weight=1) for t in ["set_hp", "set_ebr", "set_lfrc", "map_b1_hp", "map_b1_lfrc"]] + \
-    [run("hm", t, c=1, heap="reuse", opt={"ops": 0x63}, weight=1) for t in ["map_b1_hp", "map_b1_ebr", "set_hp"]] + \
+    [run("hm", t, c=1, heap="reuse", opt={"ops": 0x63}, weight=1) for t in ["map_b1_hp", "map_b1_ebr", "set_hp", "map_b1_he", "map_b1_lfrc", "map_b1_qsbr"]] + \
+    [run("hm", t, c=2, heap="reuse", opt={"ops": 0x7}, weight=2) for t in ["set_he", "set_hed", "set_hp", "set_lfrc", "map_b1_he"]] + \
     [run("hm", "map_b1_memo_scr_hp", c=0, opt={"T": 1, "m": 5, "ops": 0x1ff}, weight=3), run("hm", "set_hp", c=0, opt={"T": 1, "m": 6, "ops": 0x9f}, weight=3),
      run("hm", "map_b2_memo_scr_hp", c=0, opt={"T": 1, "m": 4, "ops": 0x1ff, "keys": 3}, weight=3), run("hm", "set_greater_hp", c=0, opt={"T": 1, "m": 5, "ops": 0x9f, "keys": 3}, weight=3)]
 PLAN["C08"] = {
@@ -350,8 +353,10 @@ _it_conc = ["iset_hp", "iset_hpd", "iset_he", "iset_qsbr", "iset_ebr", "iset_neb
 PLAN["C09"] = {
     "quick": [run("hm", t, c=0, opt={"updaters": 0, "steps": 3}, weight=0.3) for t in _it_seq] +
              [run("hm", t, c=1, opt={"keys": 2}, weight=2 if "stamp" in t else 1) for t in _it_conc] +
-             [run("hm", t, c=2, opt={"keys": 2, "m": 1}, weight=3) for t in ["iset_lfrc", "imap_b1_memo_scr_hp"]],
+             [run("hm", t, c=2, opt={"keys": 2, "m": 1}, weight=3) for t in ["iset_lfrc", "imap_b1_memo_scr_hp"]] +
+             [run("hm", t, c=1, heap="reuse", opt={"keys": 2}, weight=1) for t in ["iset_he", "iset_hp"]],
     "thorough": [run("hm", t, c=0, opt={"updaters": 0, "steps": 4}, weight=1) for t in _it_seq] +
+                [run("hm", t, c=2, heap="reuse", opt={"keys": 2}, weight=3) for t in ["iset_he", "iset_hp", "imap_b1_he", "iset_lfrc"]] +
                 [run("hm", t, c=2, opt={"keys": 2}, weight=8 if "stamp" in t else 4) for t in _it_conc] +
                 [run("hm", t, c=1, opt={"keys": 3, "m": 2}, weight=3) for t in ["iset_hp", "imap_b1_memo_scr_hp", "iset_lfrc", "imap_b2_memo_scr_hp"]] +
                 [run("hm", t, c=1, opt={"keys": 2, "m": 1, "updaters": 2}, weight=3) for t in ["iset_hp", "imap_b1_memo_scr_hp", "iset_ebr", "iset_lfrc"]],
